@@ -1541,6 +1541,18 @@ def relation_anchor_holds(facts, r):
                 continue
         if a.get('guard_only'):
             return True
+        if a.get('on_equal') in ('reject', 'accept'):
+            # boundary: which arm is taken when both operands are equal, and does it reject?
+            from analyses import nonzero_targets, zero_targets
+            if src['kind'] == 'binop':
+                eq_true = src['op'] in ('Ge', 'Le', 'Eq')
+            else:
+                eq_true = (src.get('callee') or '').endswith('::eq')
+            arm = nonzero_targets(t) if eq_true else zero_targets(t)
+            rets = set(fn.return_blocks())
+            rejects = all(not (set(fn.reach_from([x], cut_blocks=eb)) & rets) or x in eb for x in arm) and bool(arm)
+            if (a['on_equal'] == 'reject') != rejects:
+                continue
         # one arm must lead to an error exit
         if any(s in eb or any(x in eb for x in fn.reach_from([s]) if x in eb) for s in fn.succ(bi)):
             return True
